@@ -78,6 +78,9 @@ theorem numCmp_swap (n m : Nat) : (numCmp n m).swap = numCmp m n := by
   · rw [if_pos (show numSize n ≠ numSize m from hs),
       if_pos (show numSize m ≠ numSize n from fun e => hs e.symm), natCompare_swap]
 
+theorem leafI_swap (a b : IExp) : (leafI a b).swap = leafI b a := by
+  cases a <;> cases b <;> simp only [leafI, ordThen_swap, baseCmp_swap, numCmp_swap] <;> rfl
+
 /-- Comparing two monomial bodies the other way round gives the swapped answer. -/
 theorem bodyCmp_swap : ∀ a b : IExp, (bodyCmp a b).swap = bodyCmp b a := by
   intro a
@@ -85,58 +88,9 @@ theorem bodyCmp_swap : ∀ a b : IExp, (bodyCmp a b).swap = bodyCmp b a := by
   | mul x y ihx ihy =>
     intro b
     cases b with
-    | mul x' y' =>
-      simp only [bodyCmp]
-      by_cases hs : (IExp.mul x y).size = (IExp.mul x' y').size
-      · rw [if_neg (show ¬ ((IExp.mul x y).size ≠ (IExp.mul x' y').size) from fun h => h hs),
-          if_neg (show ¬ ((IExp.mul x' y').size ≠ (IExp.mul x y).size) from fun h => h hs.symm),
-          ordThen_swap, ordThen_swap, natCompare_swap, ihx, ihy]
-      · rw [if_pos (show (IExp.mul x y).size ≠ (IExp.mul x' y').size from hs),
-          if_pos (show (IExp.mul x' y').size ≠ (IExp.mul x y).size from fun e => hs e.symm), natCompare_swap]
-    | pow b e =>
-      simp only [bodyCmp]
-      by_cases hs : (IExp.mul x y).size = (IExp.pow b e).size
-      · rw [if_neg (show ¬ ((IExp.mul x y).size ≠ (IExp.pow b e).size) from fun h => h hs),
-          if_neg (show ¬ ((IExp.pow b e).size ≠ (IExp.mul x y).size) from fun h => h hs.symm),
-          ordThen_swap, natCompare_swap]
-        rfl
-      · rw [if_pos (show (IExp.mul x y).size ≠ (IExp.pow b e).size from hs),
-          if_pos (show (IExp.pow b e).size ≠ (IExp.mul x y).size from fun e => hs e.symm), natCompare_swap]
-    | atom i s => simp only [bodyCmp, natCompare_swap]
-    | num z => simp only [bodyCmp, natCompare_swap]
-    | add u v => simp only [bodyCmp, natCompare_swap]
-    | sub u v => simp only [bodyCmp, natCompare_swap]
-    | neg u => simp only [bodyCmp, natCompare_swap]
-  | pow b e _ =>
-    intro c
-    cases c with
-    | mul x y =>
-      simp only [bodyCmp]
-      by_cases hs : (IExp.pow b e).size = (IExp.mul x y).size
-      · rw [if_neg (show ¬ ((IExp.pow b e).size ≠ (IExp.mul x y).size) from fun h => h hs),
-          if_neg (show ¬ ((IExp.mul x y).size ≠ (IExp.pow b e).size) from fun h => h hs.symm),
-          ordThen_swap, natCompare_swap]
-        rfl
-      · rw [if_pos (show (IExp.pow b e).size ≠ (IExp.mul x y).size from hs),
-          if_pos (show (IExp.mul x y).size ≠ (IExp.pow b e).size from fun e => hs e.symm), natCompare_swap]
-    | pow b' e' =>
-      simp only [bodyCmp]
-      by_cases hs : (IExp.pow b e).size = (IExp.pow b' e').size
-      · rw [if_neg (show ¬ ((IExp.pow b e).size ≠ (IExp.pow b' e').size) from fun h => h hs),
-          if_neg (show ¬ ((IExp.pow b' e').size ≠ (IExp.pow b e).size) from fun h => h hs.symm),
-          ordThen_swap, baseCmp_swap, numCmp_swap]
-      · rw [if_pos (show (IExp.pow b e).size ≠ (IExp.pow b' e').size from hs),
-          if_pos (show (IExp.pow b' e').size ≠ (IExp.pow b e).size from fun e => hs e.symm), natCompare_swap]
-    | atom i s => simp only [bodyCmp, natCompare_swap]
-    | num z => simp only [bodyCmp, natCompare_swap]
-    | add u v => simp only [bodyCmp, natCompare_swap]
-    | sub u v => simp only [bodyCmp, natCompare_swap]
-    | neg u => simp only [bodyCmp, natCompare_swap]
-  | atom i s => intro b; cases b <;> simp only [bodyCmp, natCompare_swap]
-  | num z => intro b; cases b <;> simp only [bodyCmp, natCompare_swap]
-  | add u v _ _ => intro b; cases b <;> simp only [bodyCmp, natCompare_swap]
-  | sub u v _ _ => intro b; cases b <;> simp only [bodyCmp, natCompare_swap]
-  | neg u _ => intro b; cases b <;> simp only [bodyCmp, natCompare_swap]
+    | mul x' y' => simp only [bodyCmp, ordThen_swap, natCompare_swap, ihx, ihy]
+    | _ => simp only [bodyCmp, ordThen_swap, natCompare_swap, leafI_swap]
+  | _ => intro b; cases b <;> simp only [bodyCmp, ordThen_swap, natCompare_swap, leafI_swap]
 
 theorem ordThen_eq_eq {a b : Ordering} : ordThen a b = .eq ↔ a = .eq ∧ b = .eq := by
   cases a <;> cases b <;> simp [ordThen]
@@ -192,37 +146,27 @@ theorem bodyCmp_eq : ∀ a b : IExp, isTreeI a = true → isTreeI b = true → b
     cases b with
     | mul x' y' =>
       simp only [isTreeI, Bool.and_eq_true] at hb
-      simp only [bodyCmp] at h
-      split at h
-      · simp only [Nat.compare_eq_eq] at h; omega
-      · simp only [ordThen_eq_eq] at h
-        rw [ihx x' ha.1 hb.1 h.2.1, ihy y' ha.2 hb.2 h.2.2]
-    | pow b e =>
-      simp only [bodyCmp] at h
-      split at h
-      · simp only [Nat.compare_eq_eq] at h; omega
-      · simp only [ordThen_eq_eq] at h; cases h.2
+      simp only [bodyCmp, ordThen_eq_eq] at h
+      rw [ihx x' ha.1 hb.1 h.2.2.1, ihy y' ha.2 hb.2 h.2.2.2]
+    | pow c e =>
+      simp only [bodyCmp, ordThen_eq_eq, clsI, Nat.compare_eq_eq] at h
+      omega
     | _ => simp [isTreeI] at hb
-  | pow b e _ =>
-    intro c ha hc h
-    cases c with
+  | pow c e _ =>
+    intro d ha hd h
+    cases d with
     | mul x y =>
-      simp only [bodyCmp] at h
-      split at h
-      · simp only [Nat.compare_eq_eq] at h; omega
-      · simp only [ordThen_eq_eq] at h; cases h.2
-    | pow b' e' =>
-      simp only [bodyCmp] at h
-      split at h
-      · simp only [Nat.compare_eq_eq] at h; omega
-      · simp only [ordThen_eq_eq] at h
-        cases b with
-        | atom i s =>
-          cases b' with
-          | atom j s' => rw [baseCmp_atom_eq i s j s' h.1, numCmp_eq e e' h.2]
-          | _ => simp [isTreeI] at hc
-        | _ => simp [isTreeI] at ha
-    | _ => simp [isTreeI] at hc
+      simp only [bodyCmp, ordThen_eq_eq, clsI, Nat.compare_eq_eq] at h
+      omega
+    | pow c' e' =>
+      simp only [bodyCmp, ordThen_eq_eq, leafI] at h
+      cases c with
+      | atom i s =>
+        cases c' with
+        | atom j s' => rw [baseCmp_atom_eq i s j s' h.2.2.2.1, numCmp_eq e e' h.2.2.2.2]
+        | _ => simp [isTreeI] at hd
+      | _ => simp [isTreeI] at ha
+    | _ => simp [isTreeI] at hd
   | atom i s => intro b ha; simp [isTreeI] at ha
   | num z => intro b ha; simp [isTreeI] at ha
   | add u v _ _ => intro b ha; simp [isTreeI] at ha
